@@ -79,6 +79,10 @@ extern int mpt_data_convert_float64(const double *from, MPT_TYPE(type) type, voi
 	}
 	switch (type) {
 		case 'f':
+			/* finite value exceeds single precision range */
+			if ((val > FLT_MAX || val < -FLT_MAX) && !(val - val)) {
+				return MPT_ERROR(BadValue);
+			}
 			if (dest) *((float *) dest) = val;
 			return sizeof(float);
 		case 'd':
